@@ -191,7 +191,16 @@ func kaReplay(c *hx.Ctx) {
 			cases = append(cases, kaCase{time.Duration(m), uint16(ka), pp, ps, im, time.Duration(tt)})
 		}
 	}
-	kaRunAll(c, cases)
+	if len(cases) > 0 {
+		kaRunAll(c, cases)
+	}
+	for _, line := range hx.ReadLines(c.Replay) {
+		f := strings.Fields(line)
+		if len(f) >= 3 && f[0] == "tok" {
+			cnt, e := tokRun(f[1], hx.Atoi(f[2]))
+			c.Emit("tok %s %s | %d %s", f[1], f[2], cnt, e)
+		}
+	}
 }
 
 func runKeepAlive(c *hx.Ctx) {
@@ -253,4 +262,178 @@ func runKeepAlive(c *hx.Ctx) {
 	c.Stat("ka_cases", len(cases))
 	kaRunAll(c, cases)
 	kaTokens(c)
+}
+
+// ---------------------------------------------------------------- token counts, observed indirectly
+//
+// With a short TokenTimeout and a peer / back-end that never completes a flow the
+// number of back-end calls the client makes before it gives up with
+// ErrTokenTimeout is the number of tokens it created:
+//   tok pub <PP> | <calls to Backend.Publish>      (QoS 1 PUBLISHes, acks withheld)
+//   tok sub <PS> | <calls to Backend.Subscribe>    (acks withheld)
+//   tok inf <IM> | <calls to Backend.Dequeue that handed out a QoS 1 message>  (no PUBACKs)
+
+type tokConn struct {
+	mu     sync.Mutex
+	in     []packet.Generic
+	closed chan struct{}
+	once   sync.Once
+}
+
+func (c *tokConn) Send(packet.Generic, bool) error { return nil }
+func (c *tokConn) Receive() (packet.Generic, error) {
+	c.mu.Lock()
+	if len(c.in) > 0 {
+		p := c.in[0]
+		c.in = c.in[1:]
+		c.mu.Unlock()
+		return p, nil
+	}
+	c.mu.Unlock()
+	<-c.closed
+	return nil, errKaEOF
+}
+func (c *tokConn) Close() error                   { c.once.Do(func() { close(c.closed) }); return nil }
+func (c *tokConn) SetReadLimit(int64)             {}
+func (c *tokConn) SetMaxWriteDelay(time.Duration) {}
+func (c *tokConn) SetReadTimeout(time.Duration)   {}
+func (c *tokConn) LocalAddr() net.Addr            { return nil }
+func (c *tokConn) RemoteAddr() net.Addr           { return nil }
+
+type tokBackend struct {
+	kaBackend
+	kind                          string
+	mu                            sync.Mutex
+	publishes, subscribes, dequed int
+	lastErr                       error
+}
+
+func (b *tokBackend) Setup(c *broker.Client, id string, clean bool) (broker.Session, bool, error) {
+	c.ParallelPublishes, c.ParallelSubscribes, c.InflightMessages = b.cs.pp, b.cs.ps, b.cs.im
+	c.TokenTimeout = b.cs.tt
+	return session.NewMemorySession(), false, nil
+}
+func (b *tokBackend) Restore(*broker.Client) error { return nil }
+func (b *tokBackend) Publish(*broker.Client, *packet.Message, broker.Ack) error {
+	b.mu.Lock()
+	b.publishes++
+	b.mu.Unlock()
+	return nil // the ack is never called
+}
+func (b *tokBackend) Subscribe(*broker.Client, []packet.Subscription, broker.Ack) error {
+	b.mu.Lock()
+	b.subscribes++
+	b.mu.Unlock()
+	return nil
+}
+func (b *tokBackend) Dequeue(c *broker.Client) (*packet.Message, broker.Ack, error) {
+	if b.kind != "inf" {
+		<-c.Closing()
+		return nil, nil, nil
+	}
+	b.mu.Lock()
+	b.dequed++
+	b.mu.Unlock()
+	return &packet.Message{Topic: "t", Payload: []byte{1}, QOS: 1}, nil, nil
+}
+func (b *tokBackend) Log(ev broker.LogEvent, _ *broker.Client, _ packet.Generic, _ *packet.Message, err error) {
+	if err != nil {
+		b.mu.Lock()
+		if b.lastErr == nil {
+			b.lastErr = err
+		}
+		b.mu.Unlock()
+	}
+}
+
+func tokRun(kind string, n int) (int, string) {
+	cs := kaCase{tt: 60 * time.Millisecond}
+	feed := 0
+	switch kind {
+	case "pub":
+		cs.pp = n
+	case "sub":
+		cs.ps = n
+	case "inf":
+		cs.im = n
+	}
+	want := n
+	if want <= 0 {
+		want = 10
+	}
+	feed = want + 5
+	connect := packet.NewConnect()
+	connect.ClientID = "tok"
+	conn := &tokConn{closed: make(chan struct{})}
+	conn.in = append(conn.in, connect)
+	for i := 0; i < feed && kind != "inf"; i++ {
+		if kind == "pub" {
+			p := packet.NewPublish()
+			p.ID = packet.ID(i + 1)
+			p.Message = packet.Message{Topic: "t", Payload: []byte{byte(i)}, QOS: 1}
+			conn.in = append(conn.in, p)
+		} else {
+			s := packet.NewSubscribe()
+			s.ID = packet.ID(i + 1)
+			s.Subscriptions = []packet.Subscription{{Topic: "t", QOS: 0}}
+			conn.in = append(conn.in, s)
+		}
+	}
+	b := &tokBackend{kind: kind}
+	b.cs = cs
+	cl := broker.NewClient(b, conn)
+	select {
+	case <-cl.Closed():
+	case <-time.After(10 * time.Second):
+		conn.Close()
+		return -1, "hang"
+	}
+	b.mu.Lock()
+	defer b.mu.Unlock()
+	e := "none"
+	if b.lastErr == broker.ErrTokenTimeout {
+		e = "token-timeout"
+	} else if b.lastErr != nil {
+		e = "other"
+	}
+	switch kind {
+	case "pub":
+		return b.publishes, e
+	case "sub":
+		return b.subscribes, e
+	}
+	return b.dequed, e
+}
+
+func kaTokens(c *hx.Ctx) {
+	type job struct {
+		kind string
+		n    int
+	}
+	var jobs []job
+	ns := []int{-3, 0, 1, 2, 10, 11, 37}
+	if c.Thorough() {
+		ns = append(ns, 3, 5, 9, 64, 200, 1 + c.Rng.Intn(300))
+	}
+	for _, k := range []string{"pub", "sub", "inf"} {
+		for _, n := range ns {
+			jobs = append(jobs, job{k, n})
+		}
+	}
+	res := make([]string, len(jobs))
+	var wg sync.WaitGroup
+	for i, j := range jobs {
+		wg.Add(1)
+		go func(i int, j job) {
+			defer wg.Done()
+			cnt, e := tokRun(j.kind, j.n)
+			res[i] = fmt.Sprintf("tok %s %d | %d %s", j.kind, j.n, cnt, e)
+		}(i, j)
+	}
+	wg.Wait()
+	for _, l := range res {
+		c.Emit("%s", l)
+	}
+	c.Stat("ka_token_scenarios", len(jobs))
+	c.Sample(res[len(res)-1])
 }
